@@ -328,7 +328,12 @@ impl Directory {
     /// directory.to_writer(&mut output, Compression::GZip).unwrap();
     /// ```
     pub fn to_writer(&self, output: &mut impl Write, compression: Compression) -> Result<()> {
-        self.to_writer_impl(output, compression)
+        // The codec writers finish their stream when they are dropped, where an I/O error
+        // cannot be reported. Serialise into memory first (which cannot fail half-way) and
+        // hand the finished bytes to `output`, so that every failure surfaces as an error.
+        let mut buffer = Vec::<u8>::new();
+        self.to_writer_impl(&mut buffer, compression)?;
+        output.write_all(&buffer)
     }
 
     /// Async version of [`to_writer`](Self::to_writer).
